@@ -5,8 +5,13 @@
    high watermarks >= 1, both poll orders: in a quiescent state (I/O thread asleep in
    select, every worker parked on queue_cv or on outbuf_lock's condition) there is no
    undelivered output, no unserviced request or unread client data, no parked producer,
-   and a pending close has been carried out -- outside the classes of the three findings,
-   each of which is refuted by a concrete schedule. *)
+   and a pending close has been carried out -- outside the classes of the three findings
+   (outbuf_high_watermark = 0; a producer that starts waiting after handle_close; the flush of
+   a worker-side send_continue raising), each of which is refuted by a concrete schedule.
+   C05_partial_stuck: the same for "no thread can move at all" (no deadlock on the two
+   locks).  C05_app_partial: the same when workers may also sit inside the application, with
+   "fewer than send_bytes bytes pending" in place of "no pending output" (send_bytes <=
+   high watermark). *)
 From Coq Require Import List ZArith Bool.
 From WV Require Import Lib.Conc Model.ChanWake Proof.ChanWakeInv Proof.ChanWake Proof.ChanWakeWitness.
 Import ListNotations.
